@@ -44,7 +44,7 @@ def build(U):
         f = U.fn(F, name).drop_attrs()
         # R1 removed the tracker from which rustc inferred EOI's rule type parameter: name it explicitly
         call = 'try_parse_partial_with' if kind == 'p' else 'try_check_partial_with'
-        f.rw('R1b', 'EOI::%s(input, stack)' % call, "<EOI as TypedNode<'i, R>>::%s(input, stack)" % call)
+        f.rw('R1b', r'\bEOI::(try_\w+)\(', r"<EOI as TypedNode<'i, R>>::\1(", regex=True)
         f.ret('r')
         res = 'r is Some' if kind == 'p' else 'r'
         f.contract('''    requires inv(input), stack_all_wf(old(stack)@),
